@@ -79,3 +79,19 @@ Definition ext_len_unique (t : pyv) : res pyv :=
   | VTuple l => match ints_of l with Some zs => Ok (VInt (distinct_count zs)) | None => Raise TypeError end
   | _ => Raise TypeError
   end.
+
+(* a.shape != b.shape on tuples of ints *)
+Fixpoint zlist_eqb (a b : list Z) : bool :=
+  match a, b with
+  | [], [] => true
+  | x :: a', y :: b' => (x =? y) && zlist_eqb a' b'
+  | _, _ => false
+  end.
+Definition ext_shape_ne (a b : pyv) : res pyv :=
+  match a, b with
+  | VTuple la, VTuple lb =>
+    match ints_of la, ints_of lb with
+    | Some za, Some zb => Ok (VBool (negb (zlist_eqb za zb)))
+    | _, _ => Raise TypeError end
+  | _, _ => Raise TypeError
+  end.
